@@ -28,7 +28,7 @@ var jC01 = reg(&Judge{
 	Prop: "C01", Test: "TestC01",
 	Profile: Profile{MinProcs: 2, MaxProcs: 6, EdgeProb: 45, Conds: allConds,
 		Policies: []string{"", "", "no", "on_failure", "always"}, MaxRestartsMax: 2, BackoffMax: 1,
-		Probes: true, ReadyLines: true, MaxSteps: 10, Codes: []int{0, 0, 1, 2},
+		Probes: true, ReadyLines: true, MaxSteps: 10, Codes: []int{0, 0, 1, 2, -1},
 		APIOps: []string{sc.OpStart, sc.OpRestart}, Disabled: true},
 	Oracle: oracle.C01,
 	Classify: func(h *sc.History, x *oracle.Idx) (bool, []string) {
@@ -72,7 +72,7 @@ var jC02 = reg(&Judge{
 	// shutdown is in progress
 	Profile: Profile{MinProcs: 1, MaxProcs: 3, EdgeProb: 25, Conds: []string{"process_started"}, OrderedPct: 40,
 		Policies: []string{"", "no", "always", "always", "on_failure", "on_failure", "exit_on_failure"}, MaxRestartsMax: 4, BackoffMax: 3,
-		MaxSteps: 10, Codes: []int{0, 1, 2}, APIOps: []string{sc.OpStop, sc.OpStop, sc.OpShutdown},
+		MaxSteps: 10, Codes: []int{0, 1, 2, -1, 255}, APIOps: []string{sc.OpStop, sc.OpStop, sc.OpShutdown},
 		SignalBeh: []string{"", "", "hold"}, BackoffStops: true,
 		Holds: []string{"run.afterWait", "run.afterBackoff"}, HoldOps: []string{sc.OpStop, sc.OpStop, sc.OpShutdown}},
 	Oracle: oracle.C02,
@@ -157,7 +157,7 @@ var jC04 = reg(&Judge{
 	Prop: "C04", Test: "TestC04",
 	Profile: Profile{MinProcs: 1, MaxProcs: 6, EdgeProb: 40, Conds: allConds,
 		Policies: []string{"", "", "no", "on_failure", "always", "exit_on_failure", "exit_on_failure"}, MaxRestartsMax: 2, BackoffMax: 1,
-		Probes: true, ReadyLines: true, MaxSteps: 10, Codes: []int{0, 0, 1, 2, 7},
+		Probes: true, ReadyLines: true, MaxSteps: 10, Codes: []int{0, 0, 1, 2, 7, -1, 255},
 		ExitOnFlags: true, StartErr: true, BadDir: true, SignalBeh: []string{"", "", "hold"}},
 	Oracle: oracle.C04,
 	Classify: func(h *sc.History, x *oracle.Idx) (bool, []string) {
@@ -219,7 +219,7 @@ var jC05 = reg(&Judge{
 	Prop: "C05", Test: "TestC05",
 	Profile: Profile{MinProcs: 2, MaxProcs: 6, EdgeProb: 50, Conds: []string{"process_completed_successfully", "process_completed_successfully", "process_healthy", "process_log_ready", "process_completed", "process_started"},
 		Policies: []string{"", "", "no", "on_failure"}, MaxRestartsMax: 1, BackoffMax: 1,
-		Probes: true, ReadyLines: true, MaxSteps: 8, Codes: []int{0, 1, 1, 2},
+		Probes: true, ReadyLines: true, MaxSteps: 8, Codes: []int{0, 1, 1, 2, -1},
 		ExitOnFlags: true, StartErr: true, BadDir: true, APIOps: []string{sc.OpStop}},
 	Oracle: oracle.C05,
 	Classify: func(h *sc.History, x *oracle.Idx) (bool, []string) {
@@ -262,7 +262,9 @@ var jC12 = reg(&Judge{
 	Prop: "C12", Test: "TestC12",
 	Profile: Profile{MinProcs: 2, MaxProcs: 7, EdgeProb: 45, Conds: []string{"process_started", "process_started", "process_started", "process_completed"},
 		Policies: []string{"", "no"}, MaxSteps: 4, Codes: []int{0, 1}, ShutdownStep: true, Ordered: true,
-		SignalBeh: []string{"hold", "hold", ""}, ShutdownCfg: true},
+		SignalBeh: []string{"hold", "hold", ""}, ShutdownCfg: true,
+		// a dependent may already be Terminating (stopped by request, slow to die) when the shutdown begins
+		APIOps: []string{sc.OpStop}},
 	Oracle: oracle.C12,
 	Classify: func(h *sc.History, x *oracle.Idx) (bool, []string) {
 		var labels []string
@@ -310,7 +312,7 @@ var jC09 = reg(&Judge{
 	Prop: "C09", Test: "TestC09",
 	Profile: Profile{MinProcs: 1, MaxProcs: 5, EdgeProb: 40, Conds: allConds,
 		Policies: []string{"", "no", "always", "on_failure", "exit_on_failure"}, MaxRestartsMax: 2, BackoffMax: 1,
-		Probes: true, ReadyLines: true, MaxSteps: 10, Codes: []int{0, 1, 3},
+		Probes: true, ReadyLines: true, MaxSteps: 10, Codes: []int{0, 1, 3, -1},
 		ExitOnFlags: true, StartErr: true, BadDir: true, SignalBeh: []string{"", "", "hold", "ignore"}, Disabled: true,
 		APIOps: []string{sc.OpStart, sc.OpStop, sc.OpRestart, sc.OpShutdown}, UnknownNames: true,
 		// snapshots taken while a process is parked between exit and relaunch show the transient states
@@ -351,7 +353,9 @@ var jC08 = reg(&Judge{
 		Policies: []string{"", "no", "always", "on_failure"}, MaxRestartsMax: 2, BackoffMax: 1,
 		MaxSteps: 16, Codes: []int{0, 1}, SignalBeh: []string{"", "", "", "hold"},
 		APIOps: []string{sc.OpStart, sc.OpStop, sc.OpRestart, sc.OpStart, sc.OpStop, sc.OpRestart, sc.OpStopMany}, UnknownNames: true,
-		ShutdownCfg: true},
+		ShutdownCfg: true,
+		// a start request served while Run() is still spinning the project up
+		Holds: []string{"run.loop"}, HoldOps: []string{sc.OpStart}},
 	Oracle: oracle.C08,
 	Classify: func(h *sc.History, x *oracle.Idx) (bool, []string) {
 		var labels []string
